@@ -24,7 +24,7 @@ EXPLANATION = ('Bounded exploration of payload texts x placement contexts, enume
 RULE = ('one job per (context, first symbol); a case = one payload in one context; non-trivial = job closed over its whole sub-space, or a replayed '
         'counterexample')
 
-SYMS = ["'", '"', '\\', '\n', '#', '{', '}', '%', 'a', '(', ')', ' ', '*', '?', '~', '+CANARY()+', "__import__('os')", '{titles}', "'+CANARY()+'"]
+SYMS = ["'", '"', '\\', '\n', '#', '{', '}', '%', 'a', '(', ')', ' ', '*', '?', '~', '+CANARY()+', "__import__('os')", '{titles}', "'+CANARY()+'", '=1+1', '=CANARY()', '>0', ' or CANARY()', '<>1 if CANARY() else 2']
 CONTEXTS = ['constant', 'literal', 'criterion', 'gt_amp', 'search', 'datedif', 'title', 'countifs2']
 
 
@@ -46,7 +46,7 @@ def is_pattern(s):
     return bool(re.search(r'(?<![~])[?*]', s))
 
 
-def _job(ctx, first, maxlen, timeout):
+def _job(ctx, first, maxlen, timeout, kfs=()):
     import builtins
     from excel2pycl import Parser
     from excel2pycl.src.exceptions import E2PyclException
@@ -103,6 +103,9 @@ def _job(ctx, first, maxlen, timeout):
         except SyntaxError as e:
             return f'the generated module does not compile: {e}'
         twin = ('z*' if is_pattern(s) else 'zz') if ctx != 'title' else 'Zz'
+        import re as _re
+        if ctx in ('criterion', 'countifs2', 'gt_amp') and _re.fullmatch(r'(>=|<=|<>|>|<|=)(\d+(\.\d+)?(e-?\d+)?)?', s):
+            twin = s        # a complete operator[+number] criterion is *meant* to become a comparison: only compile / canary checks apply
         if (twin, safety) not in cache:
             gt = generate(twin, safety)
             cache[(twin, safety)] = blank_strings(ast.parse(gt[1]))[0] if gt[0] == 'src' else None
@@ -145,7 +148,12 @@ def _job(ctx, first, maxlen, timeout):
         except Exception as e:
             out = f'harness exception {type(e).__name__}: {e}'
         return None if out is None else dict(text=s, safety=sv, ctx=ctx, why=out)
-    r = e2.explore(run, timeout=timeout, max_failures=3)
+    def is_known(out):
+        for i, e in enumerate(kfs):
+            if e.get('context') == out['ctx'] and e.get('contains') and e['contains'] in out['text']:
+                return f'kf{i}'
+        return None
+    r = e2.explore(run, timeout=timeout, max_failures=3, is_known=is_known)
     shutil.rmtree(d, ignore_errors=True)
     return r
 
@@ -153,7 +161,9 @@ def _job(ctx, first, maxlen, timeout):
 def run(report, tier, seed):
     maxlen = 2 if tier == 'quick' else 3
     to = 300 if tier == 'quick' else 3000
-    jobs = [(f'{ctx}_sym{i}', _job, (ctx, i, maxlen, to)) for ctx in CONTEXTS for i in range(len(SYMS))]
+    from vlib import findings
+    kfs = findings.for_property('C07')
+    jobs = [(f'{ctx}_sym{i}', _job, (ctx, i, maxlen, to, kfs)) for ctx in CONTEXTS for i in range(len(SYMS))]
     res = e2.run_jobs(jobs, NCPU, deadline=to * 2 + 60)
     agg = {}
     for name, r in sorted(res.items()):
@@ -165,11 +175,9 @@ def run(report, tier, seed):
         report.queries += r['queries']
         a['paths'] += r['paths']
         a['secs'] += r['secs']
-        a['fails'] += [f[0] for f in r['failures']]
+        a['fails'] += [f[0] for f in r['failures']] + [v[1] for v in r.get('known', {}).values()]
         if not r['complete']:
             a['bad'].append('budget hit in ' + name)
-    from vlib import findings
-    kfs = findings.for_property('C07')
     for ctx, a in sorted(agg.items()):
         cname = 'inert.' + ctx
         fails = a['fails']
